@@ -233,22 +233,22 @@ def vector_gr(pos, H, ppp, A, rdelta, lmin, volume):
     vec, _ = min_image(pos[ju] - pos[iu], H, ppp)
     dist = np.sqrt((vec * vec).sum(axis=1))
     wgt = (A[iu] * np.conj(A[ju])).sum(axis=1).real
-    cnt = np.zeros(nb)
-    sA = np.zeros(nb)
+    # bin k = [edges[k], edges[k+1]), the last one closed (vectorised: N of a few hundred gives 1e4..1e5 pairs)
+    k = np.searchsorted(edges, dist, side="right") - 1
+    k[dist == edges[-1]] = nb - 1
+    inside = (k >= 0) & (k < nb)
+    cnt = np.bincount(k[inside], minlength=nb).astype(float)
+    sA = np.bincount(k[inside], weights=wgt[inside], minlength=nb)
+    # a pair within 1e-9 (relative) of edge e makes the two bins sharing that edge a matter of rounding
     risky = np.zeros(nb, dtype=bool)
-    for d_, w_ in zip(dist, wgt):
-        k = int(np.searchsorted(edges, d_, side="right")) - 1
-        near = np.nonzero(np.abs(edges - d_) <= 1e-9 * (1.0 + d_))[0]
-        for e in near:
+    j = np.clip(np.searchsorted(edges, dist), 0, nb)
+    for cand in (np.clip(j - 1, 0, nb), j):
+        near = np.abs(edges[cand] - dist) <= 1e-9 * (1.0 + dist)
+        for e in np.unique(cand[near]):
             if e - 1 >= 0:
                 risky[e - 1] = True
             if e < nb:
                 risky[e] = True
-        if d_ == edges[-1]:
-            k = nb - 1
-        if 0 <= k < nb:
-            cnt[k] += 1.0
-            sA[k] += w_
     shell = 4.0 / 3.0 * math.pi * (edges[1:] ** 3 - edges[:-1] ** 3)
     fac = 2.0 * volume / (N * N)  # unordered pairs counted once -> factor 2 for i != j ordered
     return {"r": edges[1:] - 0.5 * rdelta, "gr": fac * cnt / shell, "gA": fac * sA / shell, "risky": risky,
